@@ -213,6 +213,109 @@ fn cond_prop(c: &CondCase, st: &mut Stats) -> Result<(), String> {
 }
 
 // ------------------------------------------------------------------------------------------
+// conditional verification of two proofs of the SAME inner circuit (any shape: lookups, blinding)
+// ------------------------------------------------------------------------------------------
+
+fn cond_case_any(max_ops: usize, n: usize) -> BoxedStrategy<CondCase> {
+    bx((
+        raw_circuit(max_ops),
+        prop::collection::vec(raw_edit(), 4..=4),
+        prop::collection::vec((any::<bool>(), 0u8..3, 0u8..3), n..=n),
+    )
+        .prop_map(|(mut circuit, edits, combos)| {
+            circuit.config.keccak = false;
+            CondCase { circuit, edits, combos }
+        }))
+}
+
+fn cond_same_prop(c: &CondCase, st: &mut Stats) -> Result<(), String> {
+    let lim = ConfigLimits {
+        min_queries: 1,
+        max_queries: 6,
+        max_queries_zk: 3,
+        max_pow: 5,
+        allow_keccak: false,
+        ..ConfigLimits::default()
+    };
+    // lookups are forced into the program half of the time by the generator; make them likely
+    let o = DslOpts::default();
+    // make lookup tables common: in two thirds of the cases 1-3 lookup ops are appended to the program
+    let mut raw = c.circuit.clone();
+    for (i, r) in c.edits.iter().enumerate().take(3) {
+        if c.edits[0].kind % 3 != 0 && (i == 0 || r.kind & 1 == 1) {
+            raw.program.ops.push(crate::gen::dsl::raw_op_of_kind(crate::gen::dsl::KIND_LOOKUP, r.pos as u16, (r.pos >> 16) as u16, r.kind as u16 * 257, r.val));
+        }
+    }
+    let pr = prove_case::<C>(&raw, &o, &lim, st)?;
+    let a = &pr.built.data;
+    let chash = hash_of(&c.circuit);
+    st.label(if a.common.luts.is_empty() { "inner_without_lookups" } else { "inner_with_lookups" });
+    st.label(if a.common.config.zero_knowledge { "inner_zk" } else { "inner_nozk" });
+    let second = a.prove(pr.built.elab.witness()).map_err(|e| format!("second honest proof failed: {:#}", e))?;
+    let proofs = [pr.proof.clone(), second];
+    let outer = catch(|| build_cond_outer(&a.common)).map_err(|p| format!("building the conditional verifier PANICKED: {}", p))?;
+    let edited: Vec<ProofWithPublicInputs<F, C, D>> = (0..2)
+        .map(|i| {
+            let mut tree: Value = to_tree(&proofs[i]);
+            let leaves = numeric_leaves(&tree);
+            let r = &c.edits[i];
+            let path = &leaves[frac32(r.pos, leaves.len())];
+            edit_value(&mut tree, path, ValueEdit::Plus1, crate::gen::field::P);
+            Deserialize::deserialize(&tree).unwrap_or_else(|_| proofs[i].clone())
+        })
+        .collect();
+    let mut vd_bad = a.verifier_only.clone();
+    vd_bad.circuit_digest.elements[1] += F::ONE;
+    for (n, &(cond, s0, s1)) in c.combos.iter().enumerate() {
+        let pick = |branch: usize, s: u8| -> (ProofWithPublicInputs<F, C, D>, VerifierOnlyCircuitData<C, D>) {
+            match s {
+                0 => (proofs[branch].clone(), a.verifier_only.clone()),
+                1 => (edited[branch].clone(), a.verifier_only.clone()),
+                _ => (proofs[branch].clone(), vd_bad.clone()),
+            }
+        };
+        let (p0, v0) = pick(0, s0);
+        let (p1, v1) = pick(1, s1);
+        let (ps, vs) = if cond { (&p0, &v0) } else { (&p1, &v1) };
+        let vdata = VerifierCircuitData {
+            verifier_only: vs.clone(),
+            common: a.common.clone(),
+        };
+        let native = catch(|| vdata.verify(ps.clone())).map(|r| r.is_ok()).unwrap_or(false);
+        let mut pw = PartialWitness::new();
+        let assign = catch(|| -> anyhow::Result<()> {
+            pw.set_bool_target(outer.cond, cond)?;
+            pw.set_proof_with_pis_target(&outer.pt[0], &p0)?;
+            pw.set_verifier_data_target(&outer.vdt[0], &v0)?;
+            pw.set_proof_with_pis_target(&outer.pt[1], &p1)?;
+            pw.set_verifier_data_target(&outer.vdt[1], &v1)?;
+            Ok(())
+        });
+        st.evals(1);
+        let circuit_ok = match assign {
+            Ok(Ok(())) => match catch(|| generate_partial_witness(pw.clone(), &outer.data.prover_only, &outer.data.common)) {
+                Ok(Ok(part)) => sat::check_partition::<C>(&outer.data, &outer.instances, &part, None).clean(),
+                _ => false,
+            },
+            _ => false,
+        };
+        let sel_state = if cond { s0 } else { s1 };
+        let unsel_state = if cond { s1 } else { s0 };
+        st.label(&format!("same_circuit:cond{}_sel{}_unsel{}", cond as u8, sel_state, unsel_state));
+        if (sel_state == 0) != (unsel_state == 0) {
+            st.nontrivial(&(chash, "same", n, cond, s0, s1));
+        }
+        if native != circuit_ok {
+            return Err(format!(
+                "conditional verifier (two proofs of one circuit, lookups: {}): native validity of the selected proof is {} but the circuit says {} (condition {}, branch states {} / {})",
+                !a.common.luts.is_empty(), native, circuit_ok, cond, s0, s1
+            ));
+        }
+    }
+    Ok(())
+}
+
+// ------------------------------------------------------------------------------------------
 // cyclic recursion
 // ------------------------------------------------------------------------------------------
 
@@ -357,6 +460,8 @@ pub fn run(ctx: &mut Ctx) {
     let (n, combos) = ctx.tier.pick((28, 12), (400, 40));
     let max_ops = ctx.tier.pick(8, 25);
     ctx.run_sub("conditional_and_dummy", n, 14, move || cond_case(max_ops, combos), cond_prop);
+    let (n2, combos2) = ctx.tier.pick((28, 10), (400, 30));
+    ctx.run_sub("conditional_same_circuit", n2, 14, move || cond_case_any(max_ops, combos2), cond_same_prop);
     let (nc, max_len) = ctx.tier.pick((2, 2u8), (12, 4u8));
     ctx.run_sub("cyclic_chain", nc, 2, move || cyc_case(max_len), cyc_prop);
     let _ = HashOut::<F>::ZERO;
